@@ -134,6 +134,7 @@ func VerifC09Runnable() {
 					k, _ := strconv.Atoi(pos[1:])
 					verifAssert(k < n && kinds[k] == 0, "c09-result-placed-on-wrong-record")
 					verifAssert(k == i, "c09-result-placed-on-wrong-record")
+					verifAssert(k == i, "c08-result-attributed-to-another-record")
 				}
 			}
 		} else if kinds[i] == 1 && (firstErr < 0 || i < firstErr) {
